@@ -13,12 +13,13 @@
 (*   FixD12 schedule() does not start an emitter once stop() was requested                             *)
 (*   FixD17 start() does not start the emitters once stop() was requested                              *)
 (*   FixD18 a repeated start() raises before it touches the emitters                                   *)
+(*   FixD20 a retried start() skips the emitters an earlier, failed start() had already started        *)
 EXTENDS Naturals, Sequences, FiniteSets, TLC
 
 CONSTANTS Family,          \* name of the client-program family (see Programs)
           MaxEm,           \* emitter ids 1..MaxEm
           EvPerEm,         \* events each emitter produces
-          FixD3, FixD10, FixD12, FixD17, FixD18
+          FixD3, FixD10, FixD12, FixD17, FixD18, FixD20
 
 Watches == {1, 2}
 Handlers == {1, 2, 3}
@@ -45,6 +46,8 @@ Programs ==
     [] Family = "stopfirst" -> [a1 |-> <<Op("schedule", 1, 1), Op("start", 0, 0), Op("join", 0, 0)>>, a2 |-> <<Op("stop", 0, 0)>>]
     [] Family = "doublestart" -> [a1 |-> <<Op("schedule", 1, 1), Op("start", 0, 0), Op("start", 0, 0), Op("stop", 0, 0), Op("join", 0, 0)>>,
                                   a2 |-> <<Op("schedule", 2, 2), Op("start", 0, 0)>>]
+    [] Family = "partialstart" -> [a1 |-> <<Op("schedule", 2, 2), Op("schedule", 1, 1), Op("start", 0, 0), Op("start", 0, 0), Op("stop", 0, 0), Op("join", 0, 0)>>,
+                                   a2 |-> << >>]
     [] Family = "failing"   -> [a1 |-> <<Op("start", 0, 0), Op("schedule", 1, 1), Op("schedule", 2, 1), Op("stop", 0, 0), Op("join", 0, 0)>>,
                                 a2 |-> << >>]
     [] OTHER -> [a1 |-> << >>, a2 |-> << >>]
@@ -52,7 +55,7 @@ Scripts ==   \* <<handler, k>> :> ops executed inside that handler's k-th callba
   CASE Family = "callback" -> (<<1, 1>> :> <<Op("unschedule", 0, 1)>>) @@ (<<2, 2>> :> <<Op("remove", 1, 1), Op("schedule", 3, 1)>>)
     [] Family = "lifecycle" -> (<<1, 1>> :> <<Op("stop", 0, 0)>>)
     [] OTHER -> << >>
-FailStartInit == IF Family = "failing" THEN {1} ELSE {}
+FailStartInit == IF Family \in {"failing", "partialstart"} THEN {1} ELSE {}
 
 VARIABLES lockOwner, lockDepth,
           watches, handlers, emitterFor, emitters,     \* the registry
@@ -185,15 +188,24 @@ Body(t) ==
                         /\ UNCHANGED <<watches, handlers, nextEm, failStart, obs, lastFailed>>
                    ELSE /\ cs' = [cs EXCEPT ![t].ph = "rel", ![t].ok = FALSE]
                         /\ UNCHANGED <<watches, handlers, emitterFor, emitters, em, nextEm, failStart, obs, lastFailed>>
-              ELSE LET bad == {e \in emitters : em[e].w \in failStart} IN
-                   IF bad # {}
-                   THEN LET e == CHOOSE x \in bad : TRUE IN
-                        /\ failStart' = failStart \ {em[e].w}
+              ELSE \* the emitters are started in the order the set iterates (their numbers here).  Trouble: one that cannot be
+                   \* started (injected) - or, without FixD20, one that an earlier, failed start() had started already
+                   \* (RuntimeError).  The troublesome one is removed and start() raises; those before it were started.
+                   LET go == FixD17 => ~stopFlag
+                       bad == {e \in emitters : em[e].st = "created" /\ em[e].w \in failStart}
+                       again == IF FixD20 THEN {} ELSE {e \in emitters : em[e].st \in {"running", "exited"}}
+                       trouble == IF go THEN bad \cup again ELSE {} IN
+                   IF trouble # {}
+                   THEN LET e == CHOOSE x \in trouble : \A y \in trouble : x <= y IN
+                        /\ failStart' = IF e \in bad THEN failStart \ {em[e].w} ELSE failStart
                         /\ emitterFor' = [emitterFor EXCEPT ![em[e].w] = 0] /\ emitters' = emitters \ {e}
-                        /\ em' = StopEm({e})
-                        /\ cs' = [cs EXCEPT ![t].ph = "rel", ![t].ok = FALSE]
+                        /\ em' = [x \in EmIds |-> IF x = e THEN [em[e] EXCEPT !.flag = TRUE]
+                                                  ELSE IF x \in emitters /\ x < e /\ em[x].st = "created" THEN [em[x] EXCEPT !.st = "running"]
+                                                  ELSE em[x]]
+                        /\ cs' = [cs EXCEPT ![t].ph = IF e \in bad THEN "rel" ELSE "join", ![t].js = IF e \in bad THEN {} ELSE Joinable({e}),
+                                            ![t].ok = FALSE]
                         /\ UNCHANGED <<watches, handlers, nextEm, obs, lastFailed>>
-                   ELSE /\ em' = [e \in EmIds |-> IF e \in emitters /\ em[e].st = "created" /\ (FixD17 => ~stopFlag)
+                   ELSE /\ em' = [e \in EmIds |-> IF e \in emitters /\ em[e].st = "created" /\ go
                                                     THEN [em[e] EXCEPT !.st = "running"] ELSE em[e]]
                         /\ cs' = [cs EXCEPT ![t].ph = IF FixD10 THEN "startobs" ELSE "startgap"]
                         /\ UNCHANGED <<watches, handlers, emitterFor, emitters, nextEm, failStart, obs, lastFailed>>
@@ -339,6 +351,8 @@ C13_RegistryIsMap ==
     /\ \A w \in Watches : emitterFor[w] # 0 => w \in watches \/ ~Quiet
 \* C13 (D18): whenever no call is in flight every scheduled watch has its emitter (no start() failure is injected)
 C13_ScheduledWatchHasEmitter == Quiet => \A w \in watches : emitterFor[w] # 0
+\* C13 (D20): a start() that failed because one emitter could not be started can be retried, and then succeeds
+C13_StartRetrySucceeds == (Family = "partialstart" /\ apc["a1"] >= 5) => obs # "new"
 \* C13 (D3): a schedule() that raised leaves no handler behind
 C13_NoStaleHandlers == \A p \in lastFailed : p[1] \notin handlers[p[2]]
 \* C13/C07 (D10): whenever no call is in flight on a running observer, the emitter of every scheduled watch runs
